@@ -485,6 +485,8 @@ def check(ctx):
            'Position::operator== compares placement, side, castling rights and e.p. square (%s)' % sorted(reads(eq)), site=eq.loc())
     ctx.ob('C16.R5.fen-components', 'fen', reads(fen) == set(comps.values()),
            'fen() prints placement, side, castling rights and e.p. square (%s)' % sorted(reads(fen)), site=fen.loc())
+    import props.C16fen as c16fen
+    c16fen.check(ctx, p)
     ctx.note('the key\'s dependence on exactly these four components is C04.R2/R4')
 
 
